@@ -365,7 +365,7 @@ def shared(ctx):
     real insertions/removals, a zero count is *no entry*) and the confinement of tree writes to it (C20.R2) are necessary; so is order-independence of a batch (C03.R2)."""
     from rules.engine import core
     from rules.props import c20, c03
-    core.import_rules(ctx, [c20.r1_protocol, c20.r2_confinement, c20.r4_activation], "X20")
+    core.import_rules(ctx, [c20.r1_protocol, c20.r2_confinement, c20.r3_flag_provenance, c20.r4_activation], "X20")   # R3: every insertion / removal is made under the TIP-906 flag, not another activation predicate
     core.import_rules(ctx, [c03.r2_batch_commutativity], "X03")
     core.import_rules(ctx, [c03.r1_inventory], "X03")           # "roots are functions of the contents alone": nothing that reaches a tree or a commitment vector takes its order from a hash map
     core.import_rules(ctx, [c03.r4_commitment_order], "X03")          # "every block transaction can be proven present": positions are taken from the ORDERED transaction set
